@@ -15,21 +15,131 @@ impl CryptoRng for StrandRng {}
 impl RngCore for StrandRng {
     #[inline(always)]
     fn next_u32(&mut self) -> u32 {
+        #[cfg(feature = "strand_verif")]
+        if let Some(v) = verif::next_u32() {
+            return v;
+        }
         OsRng.next_u32()
     }
 
     #[inline(always)]
     fn next_u64(&mut self) -> u64 {
+        #[cfg(feature = "strand_verif")]
+        if let Some(v) = verif::next_u64() {
+            return v;
+        }
         OsRng.next_u64()
     }
 
     #[inline(always)]
     fn fill_bytes(&mut self, dest: &mut [u8]) {
+        #[cfg(feature = "strand_verif")]
+        if verif::fill(dest) {
+            return;
+        }
         OsRng.fill_bytes(dest)
     }
 
     #[inline(always)]
     fn try_fill_bytes(&mut self, dest: &mut [u8]) -> Result<(), Error> {
+        #[cfg(feature = "strand_verif")]
+        if verif::fill(dest) {
+            return Ok(());
+        }
         OsRng.try_fill_bytes(dest)
+    }
+}
+
+/// Verification hook (feature `strand_verif` only): a thread-local scripted
+/// byte stream that replaces the OS entropy source while installed. Bytes past
+/// the end of the script come from a deterministic SplitMix64 continuation, so
+/// a scripted run never blocks or panics and always replays exactly.
+#[cfg(feature = "strand_verif")]
+pub mod verif {
+    use std::cell::RefCell;
+
+    struct Script {
+        bytes: Vec<u8>,
+        pos: usize,
+        state: u64,
+        buf: Vec<u8>,
+    }
+
+    thread_local! {
+        static SCRIPT: RefCell<Option<Script>> = RefCell::new(None);
+    }
+
+    /// Installs a script on the current thread (replacing any previous one).
+    pub fn install(bytes: Vec<u8>) {
+        let state = 0x9E37_79B9_7F4A_7C15u64 ^ (bytes.len() as u64);
+        SCRIPT.with(|s| {
+            *s.borrow_mut() = Some(Script {
+                bytes,
+                pos: 0,
+                state,
+                buf: vec![],
+            })
+        });
+    }
+
+    /// Removes the script; returns the number of bytes consumed from it.
+    pub fn clear() -> usize {
+        SCRIPT.with(|s| s.borrow_mut().take().map(|x| x.pos).unwrap_or(0))
+    }
+
+    /// Number of bytes consumed so far (0 if no script is installed).
+    pub fn consumed() -> usize {
+        SCRIPT.with(|s| s.borrow().as_ref().map(|x| x.pos).unwrap_or(0))
+    }
+
+    fn next_byte(s: &mut Script) -> u8 {
+        let b = if s.pos < s.bytes.len() {
+            s.bytes[s.pos]
+        } else {
+            if s.buf.is_empty() {
+                s.state = s.state.wrapping_add(0x9E37_79B9_7F4A_7C15);
+                let mut z = s.state;
+                z = (z ^ (z >> 30)).wrapping_mul(0xBF58_476D_1CE4_E5B9);
+                z = (z ^ (z >> 27)).wrapping_mul(0x94D0_49BB_1331_11EB);
+                z ^= z >> 31;
+                s.buf = z.to_be_bytes().to_vec();
+            }
+            s.buf.pop().unwrap()
+        };
+        s.pos += 1;
+        b
+    }
+
+    pub(crate) fn fill(dest: &mut [u8]) -> bool {
+        SCRIPT.with(|s| {
+            let mut guard = s.borrow_mut();
+            match guard.as_mut() {
+                None => false,
+                Some(script) => {
+                    for d in dest.iter_mut() {
+                        *d = next_byte(script);
+                    }
+                    true
+                }
+            }
+        })
+    }
+
+    pub(crate) fn next_u32() -> Option<u32> {
+        let mut b = [0u8; 4];
+        if fill(&mut b) {
+            Some(u32::from_le_bytes(b))
+        } else {
+            None
+        }
+    }
+
+    pub(crate) fn next_u64() -> Option<u64> {
+        let mut b = [0u8; 8];
+        if fill(&mut b) {
+            Some(u64::from_le_bytes(b))
+        } else {
+            None
+        }
     }
 }
